@@ -164,23 +164,20 @@ class BaseNode(Node):
     def slice_value(self, slices, value=None):
         """ Slice part of the value
 
-        :param list slices: List of tuples with slicing
+        :param list slices: List of integer indices and slice objects
         :param value: Value to be sliced. If none value of current node is taken.
         """
         if value is None:
             value = self.value
         if isinstance(value, Type):
             value = value.value
-        smin, smax = slices.pop(0)
-        if smin==smax and smin is not None:
-            value = value[smin]
-        elif smin!=smax:
-            value = value[slice(smin,smax)]                  
+        index = slices.pop(0)   # an integer index or a slice object
+        value = value[index]
         if slices:
-            if smin==smax and smin is not None:
-                return self.slice_value(slices.copy(), value)
-            else:
+            if isinstance(index, slice):
                 return np.array([self.slice_value(slices.copy(), val) for val in value])
+            else:
+                return self.slice_value(slices.copy(), value)
         else:
             return value
 
